@@ -121,7 +121,7 @@ func C20(tier string) int {
 		}
 		gen(nil)
 		totalPages += len(seqsI)
-		res.Rule = fmt.Sprintf("ordered-collection pages whose items are every sequence of length 0..%d over {IRI a, IRI b, embedded Note a, embedded Note b, embedded Create a, embedded value without id} (%d pages), and every sequence of length 0..3 over 11 items whose ids differ in exactly one URL component (host, scheme, fragment, query, port, trailing slash, case, sub-path; IRI and embedded), served through GetInbox and GetOutbox; handler values of every vocabulary type, Tombstone, missing value, Get error; %d clock instants at second/day/year boundaries in 5 time zones; oracle: body JSON-equal to the supplied value with (inbox) later duplicates of an id removed and order kept, Content-Type constant, Date = clock in RFC 7231 GMT form, Digest = base64 SHA-256 of the bytes written, 410 for a Tombstone, ErrNotFound with nothing written for a missing value; non-trivial = pages with at least one duplicate id or a handler value", maxLen, len(seqsI), len(clocks))
+		res.Rule = fmt.Sprintf("ordered-collection pages whose items are every sequence of length 0..%d over {IRI a, IRI b, embedded Note a, embedded Note b, embedded Create a, embedded value without id} (%d pages), and every sequence of length 0..3 over 11 items whose ids differ in exactly one URL component (host, scheme, fragment, query, port, trailing slash, case, sub-path; IRI and embedded), served through GetInbox and GetOutbox; every pair of {GetInbox, GetOutbox, handler x 2 values} handled concurrently on one Actor under the cooperative scheduler (all interleavings of seam calls and clock reads): each response carries the Digest of its own bytes and equals the one served alone; handler values of every vocabulary type, Tombstone, missing value, Get error; %d clock instants at second/day/year boundaries in 5 time zones; oracle: body JSON-equal to the supplied value with (inbox) later duplicates of an id removed and order kept, Content-Type constant, Date = clock in RFC 7231 GMT form, Digest = base64 SHA-256 of the bytes written, 410 for a Tombstone, ErrNotFound with nothing written for a missing value; non-trivial = pages with at least one duplicate id or a handler value", maxLen, len(seqsI), len(clocks))
 		var mu sync.Mutex
 		chunk := 400
 		parallel((len(seqsI)+chunk-1)/chunk, func(ci int) {
@@ -252,6 +252,71 @@ func C20(tier string) int {
 	}
 	runPages(nearAlphabet, 3)
 	runPages(pageAlphabet, maxLen)
+	// ---- concurrent GETs: every interleaving (scheduling points: seam calls and clock reads) of two
+	// responses being produced at once; each must carry the Digest of its own bytes ----
+	{
+		pageFor := func(iri string) M {
+			d := Doc("OrderedCollectionPage", iri, "partOf", iri+"?all")
+			if strings.HasSuffix(iri, "/inbox") {
+				d["orderedItems"] = L{"https://r1.example/a/A", M{"type": "Note", "id": "https://r1.example/a/B", "content": "in the inbox"}}
+			} else {
+				d["orderedItems"] = L{"https://l.example/id/1", "https://l.example/id/2", "https://l.example/id/3"}
+			}
+			return d
+		}
+		get := func(name, entry, url string) *Scenario { return &Scenario{Name: name, Kind: ap.Both, Entry: entry, URL: url} }
+		kinds := []*Scenario{get("get-inbox", "GetInbox", inbox(Alice)), get("get-outbox", "GetOutbox", outbox(Alice)), get("get-note1", "Handler", Note1), get("get-note2", "Handler", Note2)}
+		nConc, nExec := 0, 0
+		for i := range kinds {
+			for j := i; j < len(kinds); j++ {
+				a0, b0 := *kinds[i], *kinds[j]
+				cs := &ConcScenario{Name: "c20/" + a0.Name + "+" + b0.Name, Reqs: []*Scenario{&a0, &b0}, Tweak: func(a *ap.App) {
+					a.Now = clocks[3]
+					a.ServePage = func(iri string) (vocab.ActivityStreamsOrderedCollectionPage, error) {
+						t, err := ap.Decode(ap.MustJSON(pageFor(iri)))
+						if err != nil {
+							return nil, err
+						}
+						return t.(vocab.ActivityStreamsOrderedCollectionPage), nil
+					}
+				}}
+				seq := cs.runSeq([]int{0, 1})
+				e := &mc.Explorer{Prune: true}
+				e.Budget = [3]int{-1, 0, 0}
+				e.Run = func(x *mc.Exec) bool {
+					co := cs.runConc(x)
+					nExec++
+					if co.sched.Deadlock {
+						res.Violate("concurrent-gets|deadlock", cs.Name+": "+co.sched.DeadlockInfo, M{"check": "C20", "scenario": cs.Name, "choices": x.Choices()})
+						return true
+					}
+					for k, o := range co.outs {
+						if o == nil || o.Panic != nil || o.Err != nil {
+							continue
+						}
+						if msg := headersOK(o.W, clocks[3]); msg != "" {
+							res.Violate("concurrent-gets|header|"+strings.SplitN(msg, " ", 2)[0], fmt.Sprintf("%s, schedule %v: response %d: %s", cs.Name, co.sched.Trace, k, msg),
+								M{"check": "C20", "scenario": cs.Name, "choices": x.Choices(), "schedule": co.sched.Trace})
+						}
+						if string(o.W.Body()) != string(seq.outs[k].W.Body()) {
+							res.Violate("concurrent-gets|body-differs-from-sequential", fmt.Sprintf("%s, schedule %v: response %d differs from the one served alone", cs.Name, co.sched.Trace, k),
+								M{"check": "C20", "scenario": cs.Name, "choices": x.Choices(), "schedule": co.sched.Trace})
+						}
+					}
+					return true
+				}
+				e.Explore()
+				if !e.Exhaustive {
+					res.Exhaustive = false
+				}
+				nConc++
+				res.Nontrivial[cs.Name] = struct{}{}
+			}
+		}
+		res.Evaluations += nExec
+		res.Extra["concurrent_get_pairs"] = nConc
+		res.Extra["concurrent_get_schedules"] = nExec
+	}
 	res.Extra["pages"] = totalPages
 	res.Sample(M{"entry": "GetInbox", "items": []string{"iriA", "noteB", "createA", "iriB", "noteA"}, "expected_served": []string{"iriA", "noteB", "iriB"}})
 
